@@ -56,6 +56,11 @@ func c14Targets(tier string) []c14Target {
 	add(gen.StructSpec{Fields: []gen.FieldType{pick("interface{}"), pick("[]Inner")}, Tags: []string{"a", "b"}})
 	add(gen.StructSpec{Fields: []gen.FieldType{pick("map[string]Inner"), pick("*string")}, Tags: []string{"a,omitempty", "b"}})
 	add(gen.StructSpec{Fields: []gen.FieldType{pick("map[string]int"), pick("int")}, Tags: []string{",inline", "a"}})
+	// a field of every type in the middle of a struct (non-zero offset) followed by another known field
+	for _, f := range ft {
+		add(gen.StructSpec{Fields: []gen.FieldType{pick("int64"), f, pick("int")}, Tags: []string{"zz", "b", "a"}})
+	}
+	add(gen.StructSpec{Fields: []gen.FieldType{pick("string"), pick("Inner"), pick("string")}, Tags: []string{"zz", ",inline", "a"}})
 	for _, v := range []interface{}{SeedMyInt(0), SeedMyMap(nil), SeedMySlice(nil), SeedRec{}, SeedRecSlice{}, SeedWithUnexported{}, SeedNamedFields{}, SeedBad1{}, SeedBad3{}, SeedBad4{}, SeedArrField{}, SeedMyArr{}, map[int]string(nil), [2]int{}, SeedHolder{}} {
 		out = append(out, c14Target{fmt.Sprintf("%T", v), reflect.TypeOf(v)})
 	}
@@ -268,6 +273,11 @@ func c14Families(tier string) []engine.Family {
 		{"map[string]*Inner<-object", func() reflect.Value { return reflect.New(reflect.MapOf(reflect.TypeOf(""), reflect.PtrTo(gen.Inner))) },
 			[]model.Event{model.ObjStart(-1, 0), model.KeyRef("r"), model.ObjStart(-1, 0), model.KeyRef("x"), model.SInt(model.KInt8, 3), model.ObjEnd(), model.KeyRef("n"), model.Nil(), model.ObjEnd()}},
 	}
+	// a type whose meaning depends on its tags (renamed, hidden and inlined fields), first seen by the instance after earlier documents
+	tagged := reflect.StructOf([]reflect.StructField{{Name: "Name", Type: reflect.TypeOf(""), Tag: `struct:"nm"`}, {Name: "Secret", Type: reflect.TypeOf(""), Tag: `struct:"-"`},
+		{Name: "In", Type: gen.Inner, Tag: `struct:",inline"`}, {Name: "Opt", Type: reflect.PtrTo(reflect.TypeOf(0)), Tag: `struct:"o,omitempty"`}})
+	docs = append(docs, doc{"tagged<-object", func() reflect.Value { return reflect.New(tagged) },
+		[]model.Event{model.ObjStart(-1, 0), model.KeyRef("nm"), model.StrRef("abc"), model.KeyRef("secret"), model.StrRef("leak"), model.KeyRef("name"), model.StrRef("zzz"), model.KeyRef("x"), model.SInt(model.KInt8, 80), model.KeyRef("o"), model.SInt(model.KInt8, 1), model.ObjEnd()}})
 	// ops: (doc, cut k) for every k including the complete document
 	type op struct {
 		d, k int
@@ -278,7 +288,7 @@ func c14Families(tier string) []engine.Family {
 			ops = append(ops, op{di, k})
 		}
 	}
-	followUps := []int{0, 2, 3, 5, 8, 9}
+	followUps := []int{0, 2, 3, 5, 8, 9, 10}
 	skip := map[string]bool{"reg": true, "userReg": true, "keyCache": true}
 	m := &engine.BFSModel{Name: "gotype.Unfolder(abandon+Reset)", NumOps: len(ops) + len(followUps),
 		OpName: func(i int) string {
@@ -298,6 +308,7 @@ func c14Families(tier string) []engine.Family {
 			}
 			v := structform.EnsureExtVisitor(u)
 			var out string
+			first := true
 			apply := func(i int, last bool) error {
 				var d doc
 				k := 0
@@ -307,7 +318,10 @@ func c14Families(tier string) []engine.Family {
 				} else {
 					d, k = docs[ops[i].d], ops[i].k
 				}
-				u.Reset()
+				if !first {
+					u.Reset() // the first document meets the unfolder exactly as NewUnfolder left it: that is the reference behaviour
+				}
+				first = false
 				t := d.mk()
 				if err := u.SetTarget(t.Interface()); err != nil {
 					return fmt.Errorf("SetTarget: %v", err)
